@@ -599,4 +599,47 @@ theorem cut_then_add (w : W) (inv : WInv w) (i : Nat) (o : SObj) (hs : i ∈ w.s
   refine ⟨trivial, fun p hp => ?_⟩
   exact List.mem_append_right _ (List.mem_map.2 ⟨p, hp, rfl⟩)
 
+
+/-! ### removing a structure without pins (what `prune()` does to a dead placement) touches no wiring -/
+
+theorem remove_pinless (w : W) (inv : WInv w) (i : Nat) (o : SObj) (hs : i ∈ w.structs) (ho : getObj w i = some o)
+    (hp : o.pins = []) :
+    (removeStruct w i).1.conns = w.conns ∧ (removeStruct w i).1.clist = w.clist ∧ (removeStruct w i).1.free = w.free ∧
+    (removeStruct w i).1.structs = w.structs.erase i := by
+  have nopin : ∀ x : Pin, x.1 = i → ∀ o', getObj w x.1 = some o' → x.2 ∉ o'.pins := by
+    intro x hx o' ho' hmem
+    rw [hx, ho] at ho'
+    cases ho'
+    rw [hp] at hmem; cases hmem
+  have noinv : ∀ c ∈ w.conns, involves i c = false := by
+    intro c hc
+    rw [Bool.eq_false_iff, Ne, involves_iff]
+    rintro (h | h)
+    · obtain ⟨_, o', ho', hm⟩ := inv.clistObj c.1 ((mem_clist_iff inv _).2 ⟨c, hc, Or.inl rfl⟩)
+      exact nopin c.1 h o' ho' hm
+    · obtain ⟨_, o', ho', hm⟩ := inv.clistObj c.2 ((mem_clist_iff inv _).2 ⟨c, hc, Or.inr rfl⟩)
+      exact nopin c.2 h o' ho' hm
+  have notT : ∀ x, isT w i x = false := by
+    intro x
+    rw [Bool.eq_false_iff, Ne, isT_iff]
+    rintro ⟨c, hc, hi, _⟩
+    have := noinv c hc
+    rw [(involves_iff i c).2 hi] at this; cases this
+  rw [removeStruct_eq w i o hs ho]
+  obtain ⟨hp', he⟩ := nbFold_heapOnly (fun on => removeConnections on i) o.connTo w
+  rw [he]
+  refine ⟨?_, ?_, ?_, rfl⟩
+  · show List.filter (fun c => !(involves i c)) w.conns = w.conns
+    rw [List.filter_eq_self]
+    intro c hc; simp [noinv c hc]
+  · show List.filter (fun x => !(isT w i x)) w.clist = w.clist
+    rw [List.filter_eq_self]
+    intro x _; simp [notT x]
+  · show List.filter (fun x => x.1 != i) w.free = w.free
+    rw [List.filter_eq_self]
+    intro x hx
+    obtain ⟨_, o', ho', hm⟩ := inv.freeObj x hx
+    have : x.1 ≠ i := fun h => nopin x h o' ho' hm
+    simpa using this
+
 end Wiring
